@@ -14,6 +14,12 @@ CHECKS = {
  "C03": ("exploration", "invariant at a hook (reference counters == referrers recounted from contents) after every operation, plus model-judged DELETE sweep over every group/next-hop",
          "Histories biased to retargeting references (implicit/explicit replace to other groups, NIs, next-hop sets, duplicate indices, flushes) run on the real RIB; the hooked counters are compared with referrers recounted from RIBContents after every operation and a DELETE of every group and next-hop is judged by the model (FAILED iff referenced now), followed by full teardowns.",
          "trusted: model + canonicaliser + VerifRefCounts hook (read-only snapshot)", "4 C03"),
+ "C07": ("exploration", "round-trip/differential oracle: Get responses (direct stream and real gRPC) vs reference-model contents with an independent field-by-field canonicaliser; FromGetResponses rebuild",
+         "RIBs built from generated histories with every payload field independently present are read back with every (network-instance selection x table) Get combination; the streamed entries are compared with the model as keyed multisets with field-level payload equality, Get(ALL) with the union of per-table Gets, and a RIB rebuilt with rib.FromGetResponses with the source. Evidence lists the fields whose round trip was actually exercised.",
+         "trusted: model + canonicaliser (does not use the repository's protomap-based conversion); status codes of malformed Gets are not asserted (property silent)", "4 C07"),
+ "C08": ("exploration", "complete election/NI decision table of Flush executed on generated RIBs + contents workload; reference model, hooked refcount invariant and model-judged aftermath (ops + delete sweep)",
+         "All 300 cells of {learnt id} x {election field incl. 128-bit neighbours} x {network-instance field} are executed against servers with generated contents: status code, exact emptying / no change, election state untouched, consistent aftermath. Authorised flushes of every target selection run over generated RIBs with shared, missing and cyclic backup groups and cross-NI references.",
+         "trusted: model; expected status codes taken from gRIBI spec 4.3 (detail reasons not asserted)", "4 C08"),
  "C16": ("exploration", "folding monitor over post-change notifications compared with the reference model after every step; snapshot re-hash for resolved-entry notifications; 4 hook/NI creation orders",
          "A consumer registered through rib.SetPostChangeHook / server.WithPostChangeRIBHook folds ADD/DELETE notifications; after every step of generated histories (Modify-like ops, held-op resolution, flushes) the fold must equal the model in every NI, in four configurations of hook registration vs NI creation. Resolved-entry snapshots are hashed on receipt and re-hashed at the end.",
          "trusted: model + canonicaliser; resolved-entry callbacks are asynchronous: a run whose callbacks do not all arrive is inconclusive", "4 C16"),
